@@ -39,7 +39,7 @@ for name in os.listdir(os.path.join(V, "seeded")):
         own = json.load(open(f))["results"].get(mm["property"], {})
         s1[0] += 1
         s1[1] += own.get("exit") == 1
-history = ("\nSeven rounds of seeded changes were written (2 per property and round, the seventh cut short at 21 seeds, by agents that never saw /verif). On FIRST contact each round "
+history = ("\nEight rounds of seeded changes were written (2 per property and round, the seventh cut short at 21 seeds, the eighth a 4-seed spot round for C05, C06, C10, C14, by agents that never saw /verif). Round 8 on first contact: 3 of 4 detected; C05_r8_1 (Writer.write_block emits the unread rest of a partly consumed block) was caught by C07 only, so C05 got the write_block relay family (files produced by handing partly consumed block_reader blocks to a second Writer are parsed by the independent parser) and now reports it too. On FIRST contact each round "
            "exposed gaps: of the new seeds of a round, between a sixth and a third were missed or caught only as `no-failing-input-found`; every gap was closed by "
            "strengthening the generators / predicates of the check concerned (never by special-casing the seed: the additions are families, corpora and "
            "predicates described in the RULE text of each evidence file), and the table below is the state after those repairs, from one full pass of "
